@@ -32,7 +32,7 @@ def polyline(rnd, nseg, dim):
 def gen(tier, seed):
     rnd = random.Random(seed)
     cases = []
-    for i in range(260 if tier == "quick" else 5000):
+    for i in range(260 if tier == "quick" else 20000):
         nseg = rnd.randint(1, 8)
         dim = rnd.choice((2, 2, 3))
         ks, P = polyline(rnd, nseg, dim)
